@@ -827,7 +827,9 @@ class SA:
 
     def astype(self, t, copy=True):
         k = _kind_of_dtype(t)
-        if k in ("M", "m") and self.kind in ("f", "i") and self.a.size and not isinstance(self.a.flat[0], (DT, TD)):
+        if k == "M" and self.a.size and any(isinstance(x, str) for x in self.a.ravel()):
+            return SA(_map(lambda x: DT(x) if isinstance(x, str) else x, self.a), "M")  # ISO text -> datetime64
+        if k in ("M", "m") and self.kind in ("f", "i") and self.a.size and not isinstance(self.a.flat[0], (DT, TD, str)):
             # numbers -> whole seconds (numpy truncates towards zero); only second resolution is modelled
             if "[s]" not in str(t):
                 raise Unsupported(f"astype({t!r}) on numbers: only second resolution is modelled")
@@ -839,6 +841,8 @@ class SA:
                 return o
 
             return SA(_map(conv, self.a), k)
+        if k == "M" and self.a.size and any(isinstance(x, str) for x in self.a.ravel()):
+            return SA(_map(lambda x: DT(x) if isinstance(x, str) else x, self.a), "M")  # ISO text -> datetime64
         if k in ("M", "m", "O") or k == self.kind:
             return SA(self.a.copy(), self.kind if k != "O" else "O")
         return SA(_map(lambda x: _cast_elem(x, k), self.a), k)
